@@ -26,6 +26,30 @@ def pdm (k prev : Candle ℚ) : ℚ :=
 def mdm (k prev : Candle ℚ) : ℚ :=
   if k.high - prev.high < prev.low - k.low ∧ 0 < prev.low - k.low then prev.low - k.low else 0
 
+/-- the input of the final average as the code computes it (after the `fix:` that guards `s <= 0` and clamps to 1) -/
+def tOf (plus minus : ℚ) : ℚ := if plus + minus ≤ 0 then 0 else min (|plus - minus| / (plus + minus)) 1
+
+/-- whatever the two quotients are (rounding residue of either sign included) the final average is fed a value of [0, 1] -/
+theorem tOf_range (plus minus : ℚ) : 0 ≤ tOf plus minus ∧ tOf plus minus ≤ 1 := by
+  unfold tOf
+  split
+  · exact ⟨le_refl _, by norm_num⟩
+  · rename_i h
+    push_neg at h
+    exact ⟨le_min (div_nonneg (abs_nonneg _) h.le) (by norm_num), min_le_right _ _⟩
+
+/-- for non-negative quotients (the exact ones are) the guard and the clamp change nothing: it is the textbook
+    |+DI − −DI| / (+DI + −DI), 0 when both vanish -/
+theorem tOf_nonneg {plus minus : ℚ} (hp : 0 ≤ plus) (hm : 0 ≤ minus) :
+    tOf plus minus = if plus + minus = 0 then 0 else |plus - minus| / (plus + minus) := by
+  unfold tOf
+  by_cases hz : plus + minus = 0
+  · simp [hz]
+  · have hpos : 0 < plus + minus := lt_of_le_of_ne (by linarith) (Ne.symm hz)
+    rw [if_neg (not_le.mpr hpos), if_neg hz, min_eq_left]
+    rw [div_le_one hpos, abs_le]
+    constructor <;> linarith
+
 theorem vals_spec {P n : Nat} {gT gP gM gA : List ℚ → ℚ} {cs : List (Candle ℚ)} {trs pdms mdms ts : List ℚ} {s : ADX}
     (k : Candle ℚ) (h : Inv P n gT gP gM gA cs trs pdms mdms ts s) :
     ∃ prev, (lastN n cs).head? = some prev ∧
@@ -39,7 +63,7 @@ theorem vals_spec {P n : Nat} {gT gP gM gA : List ℚ → ℚ} {cs : List (Candl
       let mv := gM (mdms ++ [mdm k prev])
       let plus := pv / tr
       let minus := mv / tr
-      let t := if plus + minus = 0 then 0 else |plus - minus| / (plus + minus)
+      let t := tOf plus minus
       ∃ v s', s.vals k none = .ok (v, s', false) ∧ v.map VExp.value = [gA (ts ++ [t]), plus, minus] ∧
         s'.prev_close = k.close ∧
         Inv P n gT gP gM gA (cs ++ [k]) trs' (pdms ++ [pdm k prev]) (mdms ++ [mdm k prev]) (ts ++ [t]) s') := by
@@ -64,19 +88,25 @@ theorem vals_spec {P n : Nat} {gT gP gM gA : List ℚ → ℚ} {cs : List (Candl
       { s with window := w', prev_close := k.close, tr_ma := tm, plus_di := p, minus_di := m, ma2 := a, mag := rmax s.mag (rabs t) }, ?_, ?_,
       rfl, ⟨h.pos, tw, rtm, rp, rm, ra⟩⟩
     · have e : (gT (trs ++ [k.trClose s.prev_close]) == 0) = false := by simpa using h0
-      have et : (if (pv / tr + mv / tr == 0) = true then 0 else rabs (pv / tr - mv / tr) / (pv / tr + mv / tr)) = t := by
-        show _ = (if plus + minus = 0 then 0 else |plus - minus| / (plus + minus))
-        by_cases hz : plus + minus = 0
-        · have : pv / tr + mv / tr = 0 := hz
+      have et : (if pv / tr + mv / tr ≤ 0 then 0 else rmin (rabs (pv / tr - mv / tr) / (pv / tr + mv / tr)) 1) = t := by
+        show _ = tOf plus minus
+        unfold tOf
+        by_cases hz : plus + minus ≤ 0
+        · have : pv / tr + mv / tr ≤ 0 := hz
           simp [hz, this]
-        · have : ¬ pv / tr + mv / tr = 0 := hz
-          simp only [hz, if_false, beq_iff_eq, this]
-          congr 1
-          unfold rabs
-          show (if pv / tr - mv / tr < 0 then -(pv / tr - mv / tr) else pv / tr - mv / tr) = |pv / tr - mv / tr|
+        · have : ¬ pv / tr + mv / tr ≤ 0 := hz
+          rw [if_neg hz, if_neg this]
+          have hab : rabs (pv / tr - mv / tr) = |pv / tr - mv / tr| := by
+            unfold rabs
+            split
+            · rw [abs_of_neg (by assumption)]
+            · rw [abs_of_nonneg (by linarith)]
+          rw [hab]
+          unfold rmin
+          show _ = min (|pv / tr - mv / tr| / (pv / tr + mv / tr)) 1
           split
-          · rw [abs_of_neg (by assumption)]
-          · rw [abs_of_nonneg (by linarith)]
+          · rw [min_eq_right (le_of_lt (by assumption))]
+          · rw [min_eq_left (by linarith)]
       simp only [vals, hw, maNext, htm, bind, Except.bind, e, fb, pure, Except.pure]
       simp only [pdm, mdm] at hp hm
       simp only [Bool.false_eq_true, if_false, hp, hm]
